@@ -88,3 +88,123 @@ def calendar_reference(start, end, planting_md, harvest_md, n_seasons, off_seaso
                 gddcum = 0.0
                 mature = dead = flag = False
     return out, plantings, harvests
+
+
+# ---------------------------------------------------------------------------------------------
+# soil layers (independent of Soil.add_layer)
+# ---------------------------------------------------------------------------------------------
+BUILTIN_LAYERS = {"Paddy": [0.5, 1.5], "ac_TunisLocal": [0.3, 1.7]}
+
+
+def layer_thicknesses(ss):
+    """Layer thicknesses as the user gave them."""
+    if ss.get("layers"):
+        return [float(l[0]) for l in ss["layers"]]
+    if ss.get("texture"):
+        return [float(l[0]) for l in ss["texture"]]
+    return BUILTIN_LAYERS.get(ss["type"])
+
+
+def reference_layer_map(bottoms, thick):
+    """Layers are stacked from the surface: a compartment belongs to the first layer that still contains its bottom, each layer
+    being measured from the bottom of the last compartment of the layer above; compartments below all layers take the last layer."""
+    import numpy as np
+
+    lay = np.zeros(len(bottoms), dtype=int)
+    last = 0.0
+    for k, t in enumerate(thick, start=1):
+        idx = [i for i in range(len(bottoms)) if lay[i] == 0 and round(bottoms[i], 2) <= round(last + t, 2) + 1e-9]
+        for i in idx:
+            lay[i] = k
+        if idx:
+            last = bottoms[idx[-1]]
+    cur = 0
+    for i in range(len(lay)):
+        if lay[i] == 0:
+            lay[i] = cur
+        cur = lay[i]
+    return lay
+
+
+def configured_limits(soil_spec):
+    """Per-compartment (th_dry, th_wp, th_fc, th_s, Ksat) of a custom soil given by hydraulic values, from the spec alone
+    (user thickness list, reference layer map); None for soils whose properties are not in the spec."""
+    import numpy as np
+
+    if not soil_spec.get("layers"):
+        return None
+    dz = np.round(np.array(soil_spec.get("dz") or [0.1] * 12, dtype=float), 2)
+    lay = reference_layer_map(np.cumsum(dz), layer_thicknesses(soil_spec))
+    if (lay == 0).any():
+        return None
+    L = soil_spec["layers"]
+    wp = np.array([float(L[k - 1][1]) for k in lay])
+    fc = np.array([float(L[k - 1][2]) for k in lay])
+    sat = np.array([float(L[k - 1][3]) for k in lay])
+    ks = np.array([float(L[k - 1][4]) for k in lay])
+    return {"th_dry": wp / 2.0, "th_wp": wp, "th_fc": fc, "th_s": sat, "ksat": ks, "layer": lay}
+
+
+# ---------------------------------------------------------------------------------------------
+# CO2 (independent of compute_variables / reset_initial_conditions)
+# ---------------------------------------------------------------------------------------------
+_CO2_TABLE = None
+
+
+def default_co2_table():
+    """(years, ppm) of the bundled Mauna Loa / A1B record, parsed here from the data file."""
+    global _CO2_TABLE
+    if _CO2_TABLE is None:
+        import os
+        from . import REPO
+
+        ys, ps = [], []
+        with open(os.path.join(REPO, "aquacrop", "data", "MaunaLoaCO2.txt")) as f:
+            for line in f:
+                parts = line.split()
+                if len(parts) == 2:
+                    try:
+                        ys.append(float(parts[0])); ps.append(float(parts[1]))
+                    except ValueError:
+                        continue
+        _CO2_TABLE = (ys, ps)
+    return _CO2_TABLE
+
+
+def configured_co2(co2_spec, year, start_year):
+    """Concentration the user's configuration prescribes for a season planted in `year`."""
+    import numpy as np
+
+    if co2_spec and co2_spec.get("table") is not None:
+        ys, ps = [float(y) for y, _ in co2_spec["table"]], [float(p) for _, p in co2_spec["table"]]
+    else:
+        ys, ps = default_co2_table()
+    if co2_spec and co2_spec.get("constant_conc"):
+        c = float(co2_spec.get("current_concentration", 0.0) or 0.0)
+        return c if c > 0 else float(np.interp(start_year, ys, ps))
+    return float(np.interp(year, ys, ps))
+
+
+def ref_fco2(conc, ref, bsted, bface, fsink, wp):
+    """AquaCrop v7 CO2 adjustment of the water productivity."""
+    import math
+
+    if conc <= ref:
+        fw = 0.0
+    elif conc >= 550:
+        fw = 1.0
+    else:
+        fw = 1 - ((550 - conc) / (550 - ref))
+    f_old = (conc / ref) / (1 + (conc - ref) * ((1 - fw) * bsted + fw * ((bsted * fsink) + (bface * (1 - fsink)))))
+    f_new = None
+    if conc > ref:
+        fshape = -4.61824 - 3.43831 * fsink - 5.32587 * fsink * fsink
+        f_new = 1.58 if conc >= 2000 else 1 + 0.58 * ((math.exp(((conc - ref) / (2000 - ref)) * fshape) - 1) / (math.exp(fshape) - 1))
+    if conc <= ref:
+        f = f_old
+    elif conc <= 550 and f_old < f_new:
+        f = f_old
+    else:
+        f = f_new
+    ftype = 0.0 if wp >= 40 else (1.0 if wp <= 20 else (40 - wp) / 20.0)
+    return 1 + ftype * (f - 1)
